@@ -184,6 +184,9 @@ func (m Mode) String() string {
 // ReadErrorsFirst: Parse reads Errors() once between Build and ParseProgram (set per run by single-task engines).
 var ReadErrorsFirst bool
 
+// HostDriven: Parse does not call ParseProgram but loops over ParseStatement()/NextToken() itself.
+var HostDriven bool
+
 // AfterBuild, when set, runs between Build and ParseProgram (single-task engines only).
 var AfterBuild func()
 
@@ -202,6 +205,25 @@ func Parse(pb *parser.Builder, src string) (out ParseOutcome) {
 	}
 	if ReadErrorsFirst {
 		_ = p.Errors() // a host that looks at the (still empty) error list of the fresh parser before parsing
+	}
+	if HostDriven {
+		// the host drives the parser itself, statement by statement, through the public API (what ParseProgram's
+		// documentation says it does): ParseStatement(), NextToken(), until end of input
+		prog := &ast.Program{Statements: []ast.Statement{}}
+		for n := 0; p.CurrentToken.Type != token.EOF; n++ {
+			if n > 4*len(src)+64 {
+				panic("host-driven loop makes no progress")
+			}
+			if st := p.ParseStatement(); st != nil && !IsNilValue(st) {
+				prog.Statements = append(prog.Statements, st)
+			}
+			p.NextToken()
+		}
+		out.Program, out.Errors = prog, p.Errors()
+		if len(out.Errors) > 0 {
+			out.Err = fmt.Errorf("host-driven parse: %d errors", len(out.Errors))
+		}
+		return out
 	}
 	prog, err := p.ParseProgram()
 	out.Program, out.Err = prog, err
